@@ -29,10 +29,10 @@ TEXT = {
          "The model is tied to the library by byte-exact produce + consume correspondence over 6 kinds x 24 algorithms x 3 tag forms",
          "signature correctness assumed (cross-checked by Lean ECDSA/Ed25519); general header maps, typed payloads, Sign/Mac/Encrypt with recipients by correspondence only", T, "7.1"),
  "C02": ("Lean theorems: verification soundness (success implies the primitive accepted exactly the RFC 9052 structure of the received protected/payload bytes and caller's external data), injectivity of the structure "
-         "(tampering = forgery), kind change changes the bytes, zero signatures / unmatched kid / any failing signature reject. Executable model with Lean primitives predicts the verdict of every mutated message in the run",
+         "(tampering = forgery), kind change changes the bytes, zero signatures / unmatched kid / any failing signature reject; history freedom over regenerated footprints (UnmarshalCBOR overwrites every field Verify reads, Verify recomputes the to-be-signed bytes and writes nothing else). Executable model with Lean primitives predicts the verdict of every mutated message in the run",
          "unforgeability of the primitives assumed", T, "7.2"),
  "C03": ("Lean theorems: decrypt soundness (success implies the AEAD opened the received ciphertext under the nonce derived from the received headers with AAD = RFC 9052 Enc_structure), AAD injectivity, "
-         "payload untouched on every failure; with C12's uniqueness an accepted change is a tag forgery. Mutation run with payload inspection after failed Decrypt",
+         "payload untouched on every failure; Decrypt recomputes the Enc_structure on every call (regenerated footprint); with C12's uniqueness an accepted change is a tag forgery. Mutation run with payload inspection after failed Decrypt, reuse of one message object / encryptor across two messages (msg.reuse), and the AEAD primitives themselves (prim:aead)",
          "AEAD security assumed", T, "7.3"),
  "C04": ("Lean theorems over the toSign/toMac/toEnc literals extracted from the source on every run: each equals the RFC 9052 Sig_/MAC_/Enc_structure for all protected, payload and external values (nil/empty/any), contexts distinct, "
          "structure injective. Recording wrappers show the library hands exactly these bytes to the primitives on produce and verify, incl. non-canonical peer encodings of protected buckets (verbatim use)",
@@ -41,7 +41,7 @@ TEXT = {
          "and no accepted key has algorithm 0; nil headers record key alg and kid. Correspondence over ordered algorithm pairs incl. pairs sharing key bytes",
          "message model tied by correspondence", T, "7.5"),
  "C06": ("Lean theorems on the nonce logic: caller IV verbatim; IV+Partial IV, Partial IV >= nonce size, missing Base IV refused; xor = RFC 9052 context IV xor left-padded Partial IV; derived nonce has the nonce length; "
-         "never panics (the >= guard keeps the slice in range); random nonce is published in header 5; each encryption consumes its own block of the random stream. Recording Encryptor correspondence",
+         "never panics (the >= guard keeps the slice in range); random nonce is published in header 5; each encryption consumes its own block of the random stream; GetRandomBytes is make + crypto/rand.Read with no package state (regenerated). Recording Encryptor correspondence, sequences on one key object (seq) and histories of 10^4..10^6 library-chosen nonces per algorithm (msg.noncehistory)",
          "crypto/rand quality not a theorem", T, "7.6"),
  "C09": ("Lean theorems: re-encoding a decoded COSE_Sign1/COSE_Mac0 preserves protected, payload and signature/tag bytes, hence the verdict; COSE_Signature re-encodes its received bucket verbatim; RemoveCBORTag removes only the tag; "
          "prefix bytes and tag numbers regenerated from the source. Chains decode->encode->decode->verify on library-produced and foreign messages by correspondence",
@@ -63,16 +63,17 @@ TEXT = {
          "AES/GHASH/ChaCha/Poly1305 cores validated by KATs and the differential run; AEAD security assumed",
          T, "7.12"),
  "C13": ("Lean theorems for RFC 5869 over any PRF: shorter output is a prefix of longer output, 255-block limit, output length; instantiated for HKDF-SHA-256/512 and "
-         "HKDF-AES (PRF = the C11 AES-CBC-MAC, padding only when unaligned). Library output (one-shot and arbitrary read chunkings) = Lean reference (spec op)",
-         "chunking law of the Go reader by correspondence; SHA-2 output lengths hypotheses",
+         "HKDF-AES (PRF = the C11 AES-CBC-MAC, padding only when unaligned); the Go reader (uint8 counter, leftover buffer) under every sequence of reads: succeeds iff the total is <= 255 blocks and "
+         "hands out exactly the one-shot output (invariant proof). Library output (one-shot and chunkings that cross the limit) = Lean reference (spec op)",
+         "SHA-2 / AES output lengths are hypotheses of the theorems; reader model tied to hkdf_aes.go by correspondence",
          T, "7.13"),
  "C18": ("Lean theorems: ValidateMap/Validate = RFC 8392 rule for all uint64 claims, flags, skews (model of Go time arithmetic incl. int64 wrap); toTime guard and skew cap read "
          "from the regenerated tables; struct and map paths agree; acceptance set is an interval; model tied to cwt/validator.go by a boundary-lattice correspondence with the rule as an independent oracle",
          "model of time.Time and of the validator control flow hand-written, tied by differential testing; RFC 8392 reading trusted; FixedNow must be set",
          T, "7.18"),
- "C20": ("Lean theorems by kernel evaluation over the whole regenerated constant table: every exported iana constant equals the registry snapshot value, values pairwise distinct per registry",
+ "C20": ("Lean theorems by kernel evaluation over the whole regenerated constant table: every exported iana constant equals the registry snapshot value, values pairwise distinct per registry; a driver query names every constant that is wrong, unknown or duplicated when the obligation breaks",
          "registry snapshot transcribed by hand (trusted); extractor reads go/constant values",
          "machine-checked proof (Lean 4, decide over the regenerated finite table)", "7.20"),
 }
 NOT_APPLICABLE = {}
-NOTES = ("D7 13bd68c, D8 78a38ed, D6 0f6756f; " +"fix commits in /repo (see known_findings.txt): b32a1c8 C20, f9d61de C18, e2fa843 C07/C05/C16, bb7f051 C13, 1fd4391 C07/C11, 9daab84 C12, 2768256 C07/C12")
+NOTES = ("D16 960e700 C02, D13 69a7581 C08, D15 69f9a82 C07; D7 13bd68c, D8 78a38ed, D6 0f6756f; " +"fix commits in /repo (see known_findings.txt): b32a1c8 C20, f9d61de C18, e2fa843 C07/C05/C16, bb7f051 C13, 1fd4391 C07/C11, 9daab84 C12, 2768256 C07/C12")
